@@ -169,6 +169,10 @@ def argv_strategy(backends):
     return options.pipeline_options(backends)
 
 
+NAME_PAIRS = [("a.sol:First", "b.sol:Second"), ("a.sol:Token", "b.sol:XToken"), ("b.sol:XToken", "a.sol:Token"), ("a.sol:ERC20", "lib/b.sol:MyERC20"),
+              ("a.sol:C", "a.sol:CC"), ("a.sol:CC", "a.sol:C"), ("x/a.sol:Lib", "y/a.sol:LibX"), ("a.sol:Vault", "b.sol:Vault2")]
+
+
 def shard_random(n, sd):
     hermetic.setup_repo()
     stats = runner.Stats()
@@ -186,8 +190,10 @@ def shard_random(n, sd):
         if "-solver" not in argv:
             fs += check_text(body + [("PUSH", 0), ("ADD", None)], argv, stats, "random")
         if sel == 0:
-            doc = docs.make_document([[("STOP", None)]], blocks[:2], name="a.sol:First",
-                                     extra_contracts={"b.sol:Second": docs.make_document([[("PUSH", 0), ("POP", None), ("STOP", None)]], blocks[-1:], name="x")["contracts"]["x"],
+            # contract names with and without a common suffix / prefix, in both document orders
+            n1, n2 = NAME_PAIRS[(len(body) + len(blocks)) % len(NAME_PAIRS)]
+            doc = docs.make_document([[("STOP", None)]], blocks[:2], name=n1,
+                                     extra_contracts={n2: docs.make_document([[("PUSH", 0), ("POP", None), ("STOP", None)]], blocks[-1:], name="x")["contracts"]["x"],
                                                       "b.sol:IFace": {}})
             fs += check_contract_selection(doc, g_argv, stats, "random")
         if fs:
